@@ -631,6 +631,10 @@ fn collect_runtime_types(
                         self.collect_type(elem);
                     }
                 }
+                tast::Ty::TVec { elem } => {
+                    // the slice itself needs no declaration, its element type may
+                    self.collect_type(elem);
+                }
                 tast::Ty::TStruct { name: _ } => {
                     // Vec types are handled as slices, no special collection needed
                 }
